@@ -883,9 +883,14 @@ class ResourceMon(Monitor):
 
     def quiescent(self, w):
         for p in self.procs(w):
-            if p.is_operational() and p._part is None and p._reserved_resources is not None:
-                raise Violation('idle_holding', f'{p.name} is idle and operational at t={w.env.now} but holds '
-                                                f'{p._reserved_resources.reserved_resources}')
+            if p._part is None and p._reserved_resources is not None:
+                if p.is_operational():
+                    raise Violation('idle_holding', f'{p.name} is idle and operational at t={w.env.now} but holds '
+                                                    f'{p._reserved_resources.reserved_resources}')
+                # "gives them back when it finishes a part without receiving the next one at the same instant, but keeps
+                # them through a maintenance shutdown WITH A PART IN PROCESS"
+                raise Violation('holding_without_part', f'{p.name} is shut down at t={w.env.now} with no part in process '
+                                                        f'but still holds {p._reserved_resources.reserved_resources}')
 
 
 # ============================================================================ C08
